@@ -178,3 +178,17 @@ ALLOW_GUARD = _gd("hwloc_topology_allow", "topology", min_post=4,
 PROPS["C19"] = GUARD_EPERM + [RESTRICT_GUARD]
 PROPS["C08"] = [RESTRICT_GUARD]
 PROPS["C02"] = [ALLOW_GUARD]
+
+
+# ------------------------------------------------------------------ C04 bitmap string conversions
+def _pr(fn, cost=60, unwind=2, **kw):
+    return Job(name=fn, driver="bitmap.print.drv.c", entry="hp_" + fn, mode="plain", unwind=unwind, min_post=0, cost=cost,
+               family="printers", plain_loop_contracts=True, drop_checks=("--pointer-overflow-check",),
+               fallback_plain={"defines": {"BUFMAX": 8, "NW": 2}, "unwind": 7}, **kw)
+
+C04 = [
+    _pr("hwloc_bitmap_snprintf", note="snprintf contract + termination; any bitmap with <= 64 stored words (loops closed by invariants), both tails, buffers 0..64 or NULL"),
+    _pr("hwloc_bitmap_taskset_snprintf", note="snprintf contract + termination; any bitmap with <= 64 stored words, both tails, buffers 0..64 or NULL"),
+    _pr("hwloc_bitmap_list_snprintf", note="snprintf contract + termination; any bitmap with <= 64 stored words, both tails, buffers 0..64 or NULL; next/next_unset inlined under their own loop invariants"),
+]
+PROPS["C04"] = C04
